@@ -351,6 +351,7 @@ pub fn with_regime<R>(r: Regime, f: impl FnOnce() -> R) -> R {
 
 #[derive(Default)]
 struct S16 {
+    samples: Vec<String>,
     evals: u64,
     distinct: HashSet<u64>,
     failures: Vec<(String, String)>,
@@ -394,6 +395,9 @@ fn server_case(st: &mut S16, codec: Codec, label: &str, odd: &[u8], expect_probe
     input.extend_from_slice(&probe_frame(codec));
     st.evals += 1;
     st.distinct.insert(h(&(codec, label)));
+    if st.samples.len() < 3 || (st.evals % 50_021 == 0 && st.samples.len() < 8) {
+        st.samples.push(format!("server {codec:?} <- {label} then a probe request: input bytes (hex, first 48) {}", input.iter().take(48).map(|b| format!("{b:02x}")).collect::<String>()));
+    }
     let r = serve_bytes(codec, &input);
     if let Some(p) = &r.panic {
         failure(st, format!("C16-server-panic/{}", site(p)), format!("{codec:?} {label}: {p}"));
@@ -672,6 +676,9 @@ pub fn run_c16(tier: Tier) -> i32 {
                 t.evals += st.evals;
                 t.distinct.extend(st.distinct);
                 t.failures.extend(st.failures);
+                if t.samples.len() < 12 {
+                    t.samples.extend(st.samples.iter().take(2).cloned());
+                }
                 t.wellformed += st.wellformed;
                 t.malformed += st.malformed;
             });
@@ -696,6 +703,7 @@ pub fn run_c16(tier: Tier) -> i32 {
             t.evals += st.evals;
             t.distinct.extend(st.distinct);
             t.failures.extend(st.failures);
+            t.samples.extend(st.samples.iter().take(2).cloned());
         });
     }
     let njobs = jobs.len() + regime_jobs.len();
@@ -709,6 +717,6 @@ pub fn run_c16(tier: Tier) -> i32 {
         &t.failures,
         json!({"mutants_still_well_formed": t.wellformed, "mutants_malformed": t.malformed, "jobs": njobs}),
         "server: for each codec and each of 6 valid client frames, every single-byte substitution (all 256 values for the first frame and in the thorough tier, a boundary value set otherwise), every truncation, boundary length prefixes and every body of length <=2, fed through the real framed serde transport into a real BaseChannel.execute(echo) followed by a well-formed probe request, which must be answered whenever the odd input still decodes to one message; well-typed boundary messages (ids 0/u64::MAX, deadlines 0 .. Duration::MAX, cancels for unused ids, floods of 100 duplicates) under three subscriber regimes (none, tracing_subscriber::fmt, tracing-opentelemetry); client: every deadline a local caller can put in the context, unsolicited/duplicate responses, and every single-byte substitution/truncation of valid response frames into a real dispatch with one call outstanding. Oracle: no panic anywhere (catch_unwind around every subject run), nothing stuck, probe served",
-        vec![json!({"case": "Json frame#0 byte 17 := 0x80 + probe"}), json!({"case": "[Otel] request id 0 deadline 9000y + probe"}), json!({"case": "Bincode [Fmt] local call with deadline now+3y"})],
+        t.samples.iter().map(|c| json!({"case": c})).collect(),
     )
 }
